@@ -34,6 +34,11 @@ CLAIMED["C05"] = dict(
     text="Random trees with gaps at several levels, discontinuous head children and unary nodes are head-marked (direct flags on any child, NeGra heuristic, rule preset; with/without root_attach), then boyd_split and raising are applied. After boyd_split the tree must equal the model's block tree (k same-labelled nodes per constituent with k blocks, in order, numbered 1..k, exactly one head block, * / number printed exactly on split nodes); after raising it must equal the closed-form reference and satisfy the stated invariants directly.",
     note="Trusted: reference in checks/C05.py (kept block = block of the yield containing the head child's kept block; new parent = lowest ancestor whose kept block contains the node), heads read back from the tree after marking. Bounded to 9 (quick) / 14 (thorough) tokens.",
     ref="DESIGN.md section 2, C05")
+CLAIMED["C13"] = dict(
+    tech="Hypothesis punctuation-rich trees; final-state post-conditions of the three re-attachments + frame condition on the set of nodes whose parent changed (node identity), well-formedness by raw walk",
+    text="Random trees in which ~45% of the tokens are punctuation (consecutive, punctuation-only constituents, unary nodes over punctuation, gaps) are run through punctuation_verylow, punctuation_root and punctuation_symetrify (with and without relc). The stated post-condition of each is evaluated on the final tree, the set of nodes whose parent pointer changed must contain only the permitted punctuation tokens, and the result must be the same root, well formed, with the same sentence and node set.",
+    note="Trusted: inventories of punctuation copied from the documented constants and cross-checked at start-up. punctuation_symetrify is only restricted, not obliged, by the statement, so a version that moves fewer tokens is not flagged.",
+    ref="DESIGN.md section 2, C13")
 PENDING_REASON = "check not built yet in this round (planned, see DESIGN.md section 6); not claimed until it is quiet on the unchanged tree"
 
 
